@@ -83,7 +83,7 @@ type c18Entry struct {
 	Sw         c18Sw     `json:"sw"`
 	MediaTypes []string  `json:"media_types,omitempty"`
 	Backup     []c18Part `json:"backup,omitempty"`
-	BackupFmt  int       `json:"backup_fmt,omitempty"` // 0 plain actions, 1 spaced actions, 2 printf, 3 surrounding blanks
+	BackupFmt  int       `json:"backup_fmt,omitempty"` // 0 plain actions, 1 spaced actions, 2 printf, 3 blanks in the text, 4-7 blanks out of the expansion
 	Interval   bool      `json:"interval,omitempty"`   // writes an (irrelevant for once/check) interval
 	// dimensions added by the generator-domain audit
 	Schedule     bool           `json:"schedule,omitempty"`      // writes an (irrelevant) cron schedule
@@ -368,7 +368,7 @@ func c18GenBackup(t *rapid.T, label string, prob int) ([]c18Part, int) {
 		return nil, 0
 	}
 	tp := rapid.SampledFrom(c18BackupTemplates).Draw(t, label+"_tmpl")
-	return tp, rapid.IntRange(0, 3).Draw(t, label+"_fmt")
+	return tp, c18Bits(t, label+"_fmt", 3)
 }
 
 func c18GenMediaTypes(t *rapid.T, label string, prob int) []string {
@@ -1024,10 +1024,46 @@ func c18TemplateText(parts []c18Part, style int) string {
 			sb.WriteString("{{" + field(p) + "}}")
 		}
 	}
-	if style == 3 {
-		return "  " + sb.String() + " "
+	body := sb.String()
+	switch style {
+	case 3: // blanks in the template text
+		return "  " + body + " "
+	// styles 4-7: the blanks come out of the EXPANSION (regsync trims the expanded string)
+	case 4: // printf with a padded format
+		f, args := " ", []string{}
+		for _, p := range parts {
+			if p.K == "lit" {
+				f += strings.ReplaceAll(p.S, "%", "%%")
+				continue
+			}
+			f += "%s"
+			a := field(p)
+			if strings.Contains(a, " ") {
+				a = "(" + a + ")"
+			}
+			args = append(args, a)
+		}
+		return strings.TrimSpace(fmt.Sprintf("{{ printf %q %s", f+"  ", strings.Join(args, " "))) + " }}"
+	case 5: // conditional with blanks inside the branches
+		return `{{ if eq .Ref.Tag "" }} none {{ else }} ` + body + ` {{ end }}`
+	case 6: // multi-line block with the actions on their own lines
+		return "{{ if .Ref.Tag }}\n  " + body + "\n{{ end }}\n"
+	case 7: // trim markers mixed with blank string actions
+		return `  {{- " " }} ` + body + ` {{ "  " -}}  `
 	}
-	return sb.String()
+	return body
+}
+
+// c18YAMLBackup writes a backup template; a multi-line one as a literal block scalar.
+func c18YAMLBackup(sb *strings.Builder, indent string, qq c18Style, text string) {
+	if strings.Contains(text, "\n") && strings.HasSuffix(text, "\n") && !strings.HasSuffix(text, "\n\n") {
+		fmt.Fprintf(sb, "%sbackup: |\n", indent)
+		for _, l := range strings.Split(strings.TrimSuffix(text, "\n"), "\n") {
+			fmt.Fprintf(sb, "%s  %s\n", indent, l)
+		}
+		return
+	}
+	fmt.Fprintf(sb, "%sbackup: %s\n", indent, c18Q(qq, text))
 }
 
 // c18Ref renders "<registry>/<repo>[:tag]".
@@ -1102,7 +1138,7 @@ func c18YAML(c c18Case, n c18Names) string {
 	c18YAMLSw(&sb, "  ", c.Def.Sw)
 	c18YAMLList(&sb, st, "  ", "mediaTypes", c.Def.MediaTypes)
 	if len(c.Def.Backup) > 0 {
-		fmt.Fprintf(&sb, "  backup: %s\n", c18Q(qq, c18TemplateText(c.Def.Backup, c.Def.BackupFmt)))
+		c18YAMLBackup(&sb, "  ", qq, c18TemplateText(c.Def.Backup, c.Def.BackupFmt))
 	}
 	if c.Def.Cache {
 		sb.WriteString("  cacheCount: 100\n  cacheTime: 5m\n")
@@ -1138,7 +1174,7 @@ func c18YAML(c c18Case, n c18Names) string {
 		c18YAMLSw(&sb, "    ", e.Sw)
 		c18YAMLList(&sb, st, "    ", "mediaTypes", e.MediaTypes)
 		if len(e.Backup) > 0 {
-			fmt.Fprintf(&sb, "    backup: %s\n", c18Q(qq, c18TemplateText(e.Backup, e.BackupFmt)))
+			c18YAMLBackup(&sb, "    ", qq, c18TemplateText(e.Backup, e.BackupFmt))
 		}
 		c18YAMLRefFilters(&sb, st, "    ", e.RefFilters)
 		if e.RateLimitMin > 0 {
